@@ -6,7 +6,7 @@
   reduction of "corrects every error with |X|,|Z| ≤ t" to C13 / C15 / C08 facts.
   Part 3 (Props/C14/Chain.lean): the chain-to-matching (T-join) lemma — generic, with a boundary, for
   the torus and for the planar code — and `toric_mwpm_corrects`, `planar_mwpm_corrects` for all sizes
-  without the `ChainBound` hypothesis.
+  without the `ChainBound` hypothesis; `…_all_sizes`: only C13's minimality left as a hypothesis.
 
   Property theorems only; helper lemmas live in Lemmas/NaiveDecode.lean, Lemmas/MwpmSplit.lean.
 
